@@ -9,6 +9,12 @@ C = {
  "C01": ("Theorems (closed): Spec/Tree.v is the abstract tree with the contract of each primitive; for the public path API on a MemoryFS instance, every well-formed state and EVERY path: create_dir, create_file, remove_file, remove_dir, write sessions (drop/flush), exists, metadata, read_dir produce exactly the outcome class and the new abstract tree the contract prescribes and keep well-formedness; the contracts themselves imply 'failed call changes nothing' and 'only the named entry changes'. Correspondence on all 15 configurations (memory, physical, altroot, overlays 1-3 layers, stackings) plus a contract oracle written independently of the model that replays the abstract contracts against the implementation's transcript.",
          "partial: the refinement theorem is proved for MemoryFS; PhysicalFS and the adapters are tied to the same contracts by the model correspondence and by the independent contract oracle. Known finding D15.",
          "Coq refinement proof (abstraction function to the spec tree, per-call simulation) + differential correspondence + independent contract oracle"),
+ "C16": ("Theorems (closed): on the MemoryFS model every trait call except open_file takes the lock exactly once (its result and effect are those of one lock section); therefore, for every number of threads, every per-thread call list and EVERY schedule, the interleaved execution equals the sequential execution of the calls in lock order, which respects each thread's program order; every step keeps the tree well formed and never panics; a publish after removal does not resurrect. Correspondence: the harness enumerates ALL schedules at the verif-hooks yield points (one before every RwLock acquisition) of directed and random small programs, checks each outcome against the sequential interleavings run on the real MemoryFS, and replays the schedules on the Coq interleaved semantics (labels, results, final state).",
+         "partial: OS scheduling and RwLock fairness are replaced by a cooperative scheduler; that all shared state is behind the lock is an assumption; open_file (two sections) and the multi-call VfsPath methods are decided by the exhaustive schedule enumeration, not by the theorem; results of failing calls are compared as 'error'.",
+         "Coq proof (atomic sections => schedule order is a linearization) + exhaustive schedule enumeration with a linearizability oracle + schedule replay on the model"),
+ "C17": ("Theorem (closed): for every number of threads, every list of requested paths (any overlap), every well-formed MemoryFS state without files on the requested prefixes and EVERY schedule of the create_dir steps, no create_dir_all thread fails, and a finished thread has all its prefixes in place as directories (invariant: directories only grow; when a thread attempts prefix k, prefix k-1 is a directory). Correspondence: all interleavings at lock granularity on MemoryFS, AltrootFS over it and OverlayFS over it (capped), sample replayed on the model; barrier-started OS threads on PhysicalFS and AltrootFS over it.",
+         "partial for PhysicalFS (mkdir atomicity and EEXIST are the kernel's; sampled); adapters are covered by the schedule enumeration, the theorem is for MemoryFS.",
+         "Coq invariant proof by induction over the schedule + exhaustive schedule enumeration / stress runs"),
  "C18": ("Theorems (closed): for EVERY list of embedded files (any names, any depth) the maps built by EmbeddedFS::new list under each directory exactly the next components of the files below it, the directories are exactly the root and the proper prefixes of file paths, the files are the files with their bytes and lengths, exists agrees with that, every mutating call is refused as not-supported (no mutable state), the root behaves like a directory even when nothing is embedded. Correspondence: a fixture folder embedded with rust-embed compared with PhysicalFS over the same folder on every path of a universe (files, implied directories, absent siblings, prefixes/extensions of names, below files) and with the model.",
          "rust-embed's iter/get are modelled as 'the list of files and their bytes'; timestamps of embedded files are not compared.",
          "Coq induction over the file list (fold invariant) + lock-step comparison with PhysicalFS on the fixture"),
@@ -64,15 +70,15 @@ PENDING = {
  "C11": "composite-operation exactness theorems under construction",
  "C12": "error-path theorem (leaf predicate over program trees) under construction",
  "C15": "async harness and the three hand-written async pieces not yet modelled",
- "C16": "interleaved semantics and scheduler hooks not yet built",
- "C17": "interleaved semantics and scheduler hooks not yet built",
+ "_C16": "interleaved semantics and scheduler hooks not yet built",
+ "_C17": "interleaved semantics and scheduler hooks not yet built",
  "_C18": "EmbeddedFS fixture comparison not yet registered",
  "_C20": "faulted semantics check not yet registered",
 }
 na = [{"property_id": p["id"], "reason": PENDING.get(p["id"], "pending")} for p in props if p["id"] not in claimed]
 m = {"version": 1, "setup_cmd": "./setup.sh",
-     "hooks": {"guard": "cargo feature verif-hooks", "enable": "harness/Cargo.toml enables the feature on the path dependency /repo (no hook commit yet: all current checks use the public API only)",
-               "baseline_off_cmd": "cd /repo && cargo test --workspace --no-fail-fast --offline", "source_commits": [], "add_only": True},
+     "hooks": {"guard": "cargo feature verif-hooks", "enable": "harness/Cargo.toml: vfs = { path = \"/repo\", features = [\"embedded-fs\", \"async-vfs\", \"verif-hooks\"] }; the hooks are only used by `vfsx --conc` (C16, C17)",
+               "baseline_off_cmd": "cd /repo && cargo test --workspace --no-fail-fast --offline", "source_commits": ["21b5e12"], "add_only": True},
      "engines": [{"name": "coq-model+correspondence", "path": "/verif/coq", "serves_properties": sorted(claimed),
                   "kind_free_text": "hand-written executable Gallina model with Coq theorems; extracted to OCaml and run against the Rust crate on generated cases"}],
      "checks": checks,
